@@ -13,7 +13,7 @@ def _OS_FIELDS(src):
 
 META = {
     'design_ref': 'DESIGN.md §5 C01',
-    'technique': 'conservation analyses: one iteration of the tokenizer loop interpreted on symbolic strings (sa.heap + sa.symstr with automatic case refinement; the groups of the field regex, their feasible participation patterns and their tiling of the match taken from the marked automaton of _RE_FIELD_LINE) -- the yielded token texts concatenate to the line; "piece flow" over stream positions through the re-grouping generators (BufferingIterator API and itertools.groupby modelled) and through iter_tokens; regular-language decisions for the whitespace look-ahead (predicate languages per input mode, token invariant extracted from the paths of _verify_token_text) and for the input-mode selection; paragraph iter_parts interpreted on symbolic heaps; token constructors and their validators interpreted on symbolic texts with automatic case refinement (every text a tokenizer can hand them); from_kvpairs interpreted on case-insensitive names; iter_tokens, convert_to_text and dump interpreted on a model tree (the loop-shape analysis as a second opinion); closure-factory rule (no container of a factory is used by the nested function it returns); the tokenizer interpreted end to end with the real buffering iterator on three input modes; constructor and iter_parts of the multi-part elements interpreted on stand-in parts (every part present, each optional part absent in turn)',
+    'technique': 'conservation analyses: one iteration of the tokenizer loop interpreted on symbolic strings (sa.heap + sa.symstr with automatic case refinement; the groups of the field regex, their feasible participation patterns and their tiling of the match taken from the marked automaton of _RE_FIELD_LINE) -- the yielded token texts concatenate to the line; "piece flow" over stream positions through the re-grouping generators (BufferingIterator API and itertools.groupby modelled) and through iter_tokens; regular-language decisions for the whitespace look-ahead (predicate languages per input mode, token invariant extracted from the paths of _verify_token_text) and for the input-mode selection; paragraph iter_parts interpreted on symbolic heaps; token constructors and their validators interpreted on symbolic texts with automatic case refinement (every text a tokenizer can hand them); from_kvpairs interpreted on case-insensitive names; iter_tokens, convert_to_text and dump interpreted on a model tree (the loop-shape analysis as a second opinion); closure-factory rule (no container of a factory is used by the nested function it returns); the tokenizer interpreted end to end with the real buffering iterator on three input modes; constructor and iter_parts of the multi-part elements interpreted on stand-in parts (every part present, each optional part absent in turn); the whole parser interpreted end to end (tokenizer, every re-grouping stage with the real buffering iterators, the element constructors) on line lists over the line classes in three input modes: the text of the document is the input',
     'level_text': 'Static decision on every path: each character of a line is emitted in exactly one token and in order (error and comment '
                   'lines whole), each token/element of the stream is yielded exactly once and in order by the grouping stages (including '
                   'end-of-stream flushes), each element enumerates the parts it stores in constructor order and dump concatenates token '
